@@ -56,7 +56,7 @@ class Clock:
 
 
 def shards(tier, seed):
-    mult = 1 if tier == "quick" else 12
+    mult = 1 if tier == "quick" else 24
     return [{"n": 2500 * mult, "exh_len": 4 if tier == "quick" else 5, "part": i, "parts": 16} for i in range(16)]
 
 
